@@ -3040,7 +3040,8 @@ coap_handle_request_put_block(coap_context_t *context,
       coap_add_data(response, sizeof("Memory issue")-1,
                     (const uint8_t *)"Memory issue");
       response->code = COAP_RESPONSE_CODE(500);
-      goto skip_app_handler;
+      /* the block is marked as received but was not stored: start afresh */
+      goto free_lg_srcv;
     }
   }
 
